@@ -425,6 +425,44 @@ def correspondence(ctx):
         sreal.append(_exc(lambda s=s: int(s)))
     for (cmd, arg), real, m in zip(sreq, sreal, drv.batch(sreq)):
         _cmp(out, f"primitive {cmd}: model differs", arg, m, real, None)
+
+    # ---- 6. the specification predicates (Spec/SeqRecords.lean) --------------------
+    # the hypotheses of the round-trip theorems (wfName / wfSeq / noLower) and the PHYLIP truncation (truncName) against
+    # their plain-Python reading, on the generators' own output: every name gen_name(wf=True) produces and every
+    # sequence gen_seq produces must satisfy the Lean predicate (so the theorems cover the tested domain), malformed
+    # ones must not, and truncName must be the trunc_name oracle used by spec_check
+    def py_spec(t, lc):
+        pr = all(32 <= ord(c) <= 126 for c in t)
+        return dict(
+            wfName=bool(t) and pr and t[0] != " " and t[-1] != " ",
+            wfSeq=bool(t) and pr and not any(c in " #" or c in lc for c in t),
+            noLower=not any("a" <= c <= "z" for c in t),
+            truncName=trunc_name(t),
+        )
+
+    qreq, qreal = [], []
+    for _ in range(ctx.budget(1500, 15000)):
+        r = rng.random()
+        lc = rng.choice([">", "%#", ""])
+        if r < 0.45:
+            t = gen_name(rng, wf=True)
+            if not py_spec(t, lc)["wfName"]:
+                add_failure(out, "corr", "generator produced a name outside the theorems' domain", {"s": t}, True, False, confirmed=False)
+        elif r < 0.6:
+            t = gen_name(rng, wf=False)
+        elif r < 0.9:
+            t = gen_seq(rng, rng.choice(["dna", "rna", "protein"]), rng.randint(1, 12), rng.random() < 0.5)
+            if not py_spec(t, lc)["wfSeq"]:
+                add_failure(out, "corr", "generator produced a sequence outside the theorems' domain", {"s": t}, True, False, confirmed=False)
+            if rng.random() < 0.2:
+                t = t.lower()
+        else:
+            t = "".join(rng.choice(" #>%a\tA-\x7f\xa0") for _ in range(rng.randint(0, 11)))
+        qreq.append(("spec", {"s": t, "lc": lc}))
+        qreal.append(py_spec(t, lc))
+    for (cmd, arg), real, m in zip(qreq, qreal, drv.batch(qreq)):
+        _cmp(out, "Spec/SeqRecords predicate differs from its Python reading", arg, m, real, ("spec", arg["s"], arg["lc"]) if arg["s"] else None)
+        bump(out, "spec_predicates", "wfName" if real["wfName"] else ("wfSeq" if real["wfSeq"] else "neither"))
     return out
 
 
